@@ -8,6 +8,7 @@ fronts come out ascending, backs descending, nothing is repeated or lost, the le
 exact, and an empty list keeps yielding nothing.
 -/
 import JulianVerif.Lemmas.Deque
+import JulianVerif.Lemmas.GenLibWF
 set_option linter.unusedSimpArgs false
 namespace JV.C17
 open JV
@@ -86,5 +87,74 @@ theorem monthIter_no_panic (n : Int) (h1 : 1 ≤ n) (h2 : n ≤ 12) : (Month.ofI
 example : (Days.new ⟨Calendar.reform1582, 1582, .october, .gapped 5 14 31⟩).run
       [.front, .back, .len, .front, .back]
     = [.item (some 1), .item (some 31), .len 19, .item (some 2), .item (some 30)] := by rfl
+
+/-! ### the same steps as GENERATED from iter.rs
+
+`Gen.daysNext`, `Gen.datesNext`, `Gen.monthIterNext` and their `next_back` twins are produced by
+bin/libgen from the `impl Iterator` / `impl DoubleEndedIterator` blocks of iter.rs (`&mut self`
+becomes a returned receiver, `?` an early return, `RangeInclusive` the `RangeIncl` model of core's
+implementation).  One generated step is one step of the model the refinement theorems above are
+about. -/
+
+/-- one generated step of `Days` is the model's step, for every shape `month_shape` returns and
+every state whose next ordinal is a `u32` -/
+theorem generated_days_step (c : Calendar) (hc : WF c) (y : Int) (m : Month) (s : IShape)
+    (hs : c.monthIShape y m = some s) (r : RangeIncl)
+    (hn : ∀ n, (r.next.1 = some n ∨ r.nextBack.1 = some n) → InU32 n) :
+    Gen.daysNext ⟨⟨c, y, m, s⟩, r⟩ = some (Days.next ⟨⟨c, y, m, s⟩, r⟩)
+    ∧ Gen.daysNextBack ⟨⟨c, y, m, s⟩, r⟩ = some (Days.nextBack ⟨⟨c, y, m, s⟩, r⟩)
+    ∧ Gen.daysSizeHint ⟨⟨c, y, m, s⟩, r⟩ = (r.len, some r.len) := by
+  obtain ⟨B⟩ := hc.base
+  have hf := B.fits y m s hs
+  refine ⟨?_, ?_, rfl⟩
+  · rw [Gen.daysNext_eq]; simp only [Days.next, MonthShape.nthDay]
+    rcases h : r.next with ⟨_ | n, r'⟩
+    · rfl
+    · simp only []; rw [Chk.nthDay_eq s hf n (hn n (Or.inl (by rw [h])))]; rfl
+  · rw [Gen.daysNextBack_eq]; simp only [Days.nextBack, MonthShape.nthDay]
+    rcases h : r.nextBack with ⟨_ | n, r'⟩
+    · rfl
+    · simp only []; rw [Chk.nthDay_eq s hf n (hn n (Or.inr (by rw [h])))]; rfl
+
+/-- one generated step of `Dates` is the model's step -/
+theorem generated_dates_step (c : Calendar) (hc : WF c) (y : Int) (hy : InI32 y) (m : Month) (s : IShape)
+    (hs : c.monthIShape y m = some s) (r : RangeIncl)
+    (hn : ∀ n, (r.next.1 = some n ∨ r.nextBack.1 = some n) → InU32 n) :
+    Gen.datesNext ⟨⟨c, y, m, s⟩, r⟩ = some (Dates.next ⟨⟨c, y, m, s⟩, r⟩)
+    ∧ Gen.datesNextBack ⟨⟨c, y, m, s⟩, r⟩ = some (Dates.nextBack ⟨⟨c, y, m, s⟩, r⟩)
+    ∧ Gen.datesSizeHint ⟨⟨c, y, m, s⟩, r⟩ = (r.len, some r.len) := by
+  obtain ⟨B⟩ := hc.base
+  have hg := Gen.WF.gapOrdered hc
+  refine ⟨?_, ?_, rfl⟩
+  · rw [Gen.datesNext_eq _ hg]; simp only [Dates.next]
+    rcases h : r.next with ⟨_ | n, r'⟩
+    · rfl
+    · simp only []; rw [B.nthDate_eq y hy m s hs n (hn n (Or.inl (by rw [h])))]; rfl
+  · rw [Gen.datesNextBack_eq _ hg]; simp only [Dates.nextBack]
+    rcases h : r.nextBack with ⟨_ | n, r'⟩
+    · rfl
+    · simp only []; rw [B.nthDate_eq y hy m s hs n (hn n (Or.inr (by rw [h])))]; rfl
+
+/-- one generated step of `MonthIter`: it faults (the `.expect`) exactly when the number the range
+yields is not a month number — which `months_refines` / `monthIter_no_panic` exclude for `1..=12` -/
+theorem generated_month_iter_step (r : RangeIncl) :
+    Gen.monthIterNext r = (match (MonthIter.next ⟨r⟩) with
+      | (none, it) => some (none, it.inner)
+      | (some none, _) => none
+      | (some (some mo), it) => some (some mo, it.inner))
+    ∧ Gen.monthIterNextBack r = (match (MonthIter.nextBack ⟨r⟩) with
+      | (none, it) => some (none, it.inner)
+      | (some none, _) => none
+      | (some (some mo), it) => some (some mo, it.inner))
+    ∧ Gen.monthIterNew = MonthIter.new.inner := by
+  refine ⟨?_, ?_, rfl⟩
+  · rw [Gen.monthIterNext_eq]; simp only [MonthIter.next]
+    rcases h : r.next with ⟨_ | n, r'⟩
+    · rfl
+    · simp only []; cases Month.ofInt? n <;> rfl
+  · rw [Gen.monthIterNextBack_eq]; simp only [MonthIter.nextBack]
+    rcases h : r.nextBack with ⟨_ | n, r'⟩
+    · rfl
+    · simp only []; cases Month.ofInt? n <;> rfl
 
 end JV.C17
